@@ -50,32 +50,4 @@ Definition c11_prop (t : ty) (v : value) (impl_bytes : option (list byte)) (impl
   | _, _ => false
   end.
 
-(* guard of finding C11 uint-5to7: the value contains a Go uint / int (compact) component whose
-   64-bit pattern needs 5, 6 or 7 bytes — encodeUint emits a big-mode length decodeUint rejects *)
-Definition uint57 (n : N) : bool := (4294967296 <=? n) && (n <? 72057594037927936).
-Fixpoint has_uint57 (t : ty) (v : value) {struct v} : bool :=
-  match v, t with
-  | VN n, TUint => uint57 n
-  | VZ z, TInt => uint57 (wrap 8 z)
-  | VSome v', TOption t' => has_uint57 t' v'
-  | VOk v', TResult a _ => has_uint57 a v'
-  | VErr v', TResult _ b => has_uint57 b v'
-  | VEnum i v', TEnum alts => match alt_lookup alts i with Some t' => has_uint57 t' v' | None => false end
-  | VList vs, TArray _ t' => has_uint57_all t' vs
-  | VList vs, TSlice t' => has_uint57_all t' vs
-  | VList vs, TStruct fs => has_uint57_fields fs vs
-  | VMap kvs, TMap kt vt => has_uint57_kvs kt vt kvs
-  | _, _ => false
-  end
-with has_uint57_all (t : ty) (vs : vals) {struct vs} : bool :=
-  match vs with VNil => false | VCons v r => has_uint57 t v || has_uint57_all t r end
-with has_uint57_fields (fs : tys) (vs : vals) {struct vs} : bool :=
-  match vs, fs with
-  | VCons v r, TCons _ t fr => has_uint57 t v || has_uint57_fields fr r
-  | _, _ => false
-  end
-with has_uint57_kvs (kt vt : ty) (kvs : kvals) {struct kvs} : bool :=
-  match kvs with
-  | KNil => false
-  | KCons k v r => has_uint57 kt k || has_uint57 vt v || has_uint57_kvs kt vt r
-  end.
+(* the guard of finding C11 uint-5to7 is Scale.Codec.has_uint57 *)
